@@ -128,7 +128,10 @@ impl Fetcher {
         node: NodeId,
         result: FetchResult,
     ) -> ControlFlow<Success, Progress> {
-        self.results.push(node, result);
+        // Nb. The local node is never a candidate, and must never count towards the target.
+        if node != self.local_node {
+            self.results.push(node, result);
+        }
         self.finished()
     }
 
